@@ -4,7 +4,7 @@ from __future__ import annotations
 import itertools
 from datetime import date, datetime
 
-from mc import core
+from mc import core, provenance
 from mc.core import Agg, V
 from mc.models import canon_elem, obs, same_list, same_value, schema_of, belongs
 
@@ -20,6 +20,7 @@ ASSUMPTIONS = ["a bool column receiving an int/float/complex may either be promo
                "failing multi-column TABLE assignments: each column must be either assigned as the model says or untouched "
                "(the statement's atomicity clause speaks of 'the vector')"]
 
+VARIANT = [0]
 D1, D2, D3 = date(2020, 1, 2), date(2021, 3, 4), date(1999, 9, 9)
 T1, T2, T3 = datetime(2020, 1, 2, 3, 4), datetime(2021, 3, 4, 5, 6), datetime(1999, 9, 9, 9, 9)
 BASE = {
@@ -302,7 +303,9 @@ def unit_vector(unit):
             agg.transitions += 1
             case = dict(d, key=list(kdesc[:1]) + [list(kdesc[1]) if isinstance(kdesc[1], tuple) else kdesc[1]],
                         value=(vd[1] if vd[0] == "scalar" else [vd[0], vd[1], vd[2]]))
-            v = Vector(list(base), name="nm")
+            VARIANT[0] += 1
+            route, v = provenance.vector_variant(list(base), "nm", VARIANT[0])
+            case["route"] = route
             s0 = schema_of(v)
             fp0 = v.fingerprint()           # cached before the write
             before = obs(v)
